@@ -332,6 +332,7 @@ func c07GenExtra(tier string, rng *rand.Rand, emit func(interface{})) {
 	}
 	// Binomial up to N = 1000, Hypergeometric up to N = 1000: levels at and next to cumulative levels
 	discLevels := func(cdf func(float64) float64, lo, hi int) []float64 {
+		cdf = c07SafeCDF(cdf)
 		var ys []float64
 		for j := 0; j < 5; j++ {
 			c := cdf(float64(lo + rng.Intn(hi-lo+1)))
@@ -382,6 +383,7 @@ func c07GenExtra(tier string, rng *rand.Rand, emit func(interface{})) {
 			mu, sigma = []float64{0, 1e6, -1e6, 1e50, 3}[(i/5)%5], []float64{1, 1e-6, 1e6, 1e40, 1e-50}[(i/5)%5]
 		}
 		emit(c07Case{Op: 6, Kind: 5, A: F64(mu), B: F64(sigma), Ys: toF64s(relLevels()), Seeds: seeds()})
+		emit(c07Case{Op: 7, Kind: 5, A: F64(mu), B: F64(sigma), Src: randSrc(anyY())})
 		t := genValue(rng, rng.Intn(4))
 		emit(c07Case{Op: 6, Kind: 6, A: F64(t), Ys: toF64s(relLevels()), Seeds: seeds()})
 		emit(c07Case{Op: 7, Kind: 6, A: F64(t), Src: randSrc(anyY())})
@@ -485,6 +487,52 @@ func c07GenExtra(tier string, rng *rand.Rand, emit func(interface{})) {
 			emit(c07Case{Op: 7, Kind: 10, A: F64(a), B: F64(sc), P: F64(al), Src: randSrc(anyY())})
 		}
 	}
+	// ---- (l) Kolmogorov-Smirnov distance of stats.Rand's draws to the distribution's OWN cdf, for every built-in
+	// (and the harness distributions), whatever generator stats.Rand returns for it: the own Rand method of the
+	// distributions that have one, the generic generator for the others.  KDE: the three kernels x unweighted /
+	// strongly weighted samples x no / lower / upper / both reflecting boundaries (deterministic)
+	nd := 2048
+	if tier == "thorough" {
+		nd = 8192
+	}
+	kdeXs := toF64s([]float64{0, 4, 10, 11, 1.5})
+	for kern := 0; kern < 3; kern++ {
+		for _, wts := range [][]int{nil, {6, 3, 1, 1, 12}, {1, 0, 0, 20, 1}} {
+			for bd := 0; bd <= 3; bd++ {
+				emit(c07Case{Op: 10, Kind: 2, Xs: kdeXs, T: wts, B: F64(1.5), D: kern, K: bd, A: F64(0.5), Draws: nd / 4, Seeds: []int64{rng.Int63()}})
+			}
+		}
+	}
+	for i := 0; i < 4*mul; i++ {
+		n := 2 + rng.Intn(8)
+		xs := make([]float64, n)
+		wts := make([]int, n)
+		for j := range xs {
+			xs[j] = float64(rng.Intn(129)-64) / 4
+			wts[j] = []int{0, 1, 1, 2, 10, 50}[rng.Intn(6)]
+		}
+		wts[rng.Intn(n)] = 7 // at least one positive weight
+		emit(c07Case{Op: 10, Kind: 2, Xs: toF64s(xs), T: wts, B: F64(float64(1+rng.Intn(8)) / 4), D: rng.Intn(3), K: rng.Intn(4), A: F64(float64(rng.Intn(5)) / 2), Draws: nd, Seeds: []int64{rng.Int63()}})
+	}
+	ksd := func(c c07Case) {
+		c.Op, c.Draws, c.Seeds = 10, nd, []int64{rng.Int63()}
+		emit(c)
+	}
+	ksd(c07Case{Kind: 0, A: 3})
+	ksd(c07Case{Kind: 0, A: F64(math.Pow(10, -1+8*rng.Float64()))})
+	ksd(c07Case{Kind: 1, N: 3, K: 4})
+	ksd(c07Case{Kind: 1, N: 4, K: 3, T: []int{2, 1, 3, 1}})
+	ksd(c07Case{Kind: 3, N: 1 + rng.Intn(300), P: F64(rng.Float64())})
+	ksd(c07Case{Kind: 3, N: 20, P: 0.25})
+	ksd(c07Case{Kind: 4, N: 60, K: 25, D: 30})
+	ksd(c07Case{Kind: 4, N: 2 + rng.Intn(200), K: 1, D: 1})
+	ksd(c07Case{Kind: 5, A: 0, B: 1})
+	ksd(c07Case{Kind: 5, A: F64(genValue(rng, rng.Intn(4))), B: F64(math.Ldexp(1, rng.Intn(41)-20))})
+	ksd(c07Case{Kind: 6, A: F64(genValue(rng, rng.Intn(4)))})
+	ksd(c07Case{Kind: 7, P: 0.05, A: 0, B: 1, Xs: toF64s([]float64{1e-4, 0})})
+	ksd(c07Case{Kind: 8, P: 4, A: -3, B: 0.5, Xs: toF64s([]float64{3})})
+	ksd(c07Case{Kind: 9, A: 1, B: 2, P: 0.25})
+	ksd(c07Case{Kind: 10, A: 0, B: 1, P: 1})
 	// UDist and KDE through Rand as well
 	for i := 0; i < 20*mul; i++ {
 		n1, n2 := 1+rng.Intn(5), 1+rng.Intn(5)
@@ -497,6 +545,11 @@ func c07GenExtra(tier string, rng *rand.Rand, emit func(interface{})) {
 		sort.Float64s(xs)
 		emit(c07Case{Op: 7, Kind: 2, Xs: toF64s(xs), B: F64(float64(1+rng.Intn(8)) / 4), D: rng.Intn(3), Src: randSrc(0.001 + 0.998*rng.Float64())})
 		emit(c07Case{Op: 6, Kind: 2, Xs: toF64s(xs), B: F64(float64(1+rng.Intn(8)) / 4), D: 1 + rng.Intn(2), Ys: toF64s(relLevels()), Seeds: seeds()})
+		wts := make([]int, n)
+		for j := range wts {
+			wts[j] = 1 + rng.Intn(9)
+		}
+		emit(c07Case{Op: 7, Kind: 2, Xs: toF64s(xs), T: wts, B: F64(float64(1+rng.Intn(8)) / 4), D: rng.Intn(3), K: rng.Intn(4), A: F64(float64(rng.Intn(5)) / 2), Src: randSrc(0.001 + 0.998*rng.Float64())})
 	}
 	// ---- (k) "exactly 0 (1)": the cdf at the lower (upper) bound is positive but tiny (below 1 by one ulp);
 	// the end point is NOT returned
